@@ -225,6 +225,9 @@ pub struct McSpec {
     pub hmac_secret: Option<bool>,
     pub prf: Option<CtapPrf>,
     pub via_trait: bool,
+    /// also send an hmac-secret-mc input (key agreement + encrypted salts, opaque to this library)
+    #[serde(default)]
+    pub hmac_secret_mc: bool,
 }
 
 #[derive(Serialize, Deserialize, Clone, Debug, PartialEq)]
@@ -271,6 +274,12 @@ pub enum OpKind {
         /// value of the extended Le field of the (data-less) version frame
         #[serde(default)]
         le_val: u16,
+    },
+    /// harness changes what the store and the user-validation method report about themselves
+    /// (a policy switch, a biometric enrolment) between ceremonies
+    SetCapability {
+        capability: Capability,
+        verification: Option<bool>,
     },
     /// harness edits the stored counter of the n-th model credential
     SetCounter {
